@@ -18,6 +18,11 @@ import re
 # --------------------------------------------------------------------------
 
 _cls_cache = {}
+MAX_REQUESTS = 24
+
+
+class Runaway(Exception):
+    """The channel keeps dispatching requests that were never sent (recorded as an observation)."""
 
 
 def _classes():
@@ -30,6 +35,9 @@ def _classes():
 
         def process(self):
             ch = self.channel
+            if len(ch.mc_log) >= MAX_REQUESTS:
+                # no stream of the grammars holds that many requests: the channel is replaying input
+                raise Runaway("more than %d requests dispatched" % MAX_REQUESTS)
             body = self.content.read()
             hdrs = tuple((bytes(k), tuple(bytes(x) for x in v))
                          for k, v in self.requestHeaders.getAllRawHeaders())
